@@ -473,7 +473,14 @@ type ForbidMethod struct {
 	Props                          []string
 }
 
+// ForbidCall: no function under verification for the listed properties may call Callee.
+type ForbidCall struct {
+	Callee, Reason, Src string
+	Props               []string
+}
+
 type Contracts struct {
+	ForbidCalls []*ForbidCall
 	Ghosts  map[string]Sort // ghost state components: name -> SMT sort
 	Globals []*GlobalInv
 	Funcs  map[string]*FuncContract
@@ -508,7 +515,7 @@ func (cs *Contracts) ParseContractFile(path string, pkgName string, isSpec bool)
 		line int
 	}
 	var lines []lline
-	heads := []string{"func ", "type ", "spec ", "dead ", "forbid_tags", "forbid_method", "axiom ", "lemma ", "global ", "props ", "arith ", "requires", "ensures", "trusted_ensures", "assigns", "writes", "loop ", "pure", "trusted", "trustframe", "noglobals", "validator", "errors_propagated", "constructor", "unbounded_alloc", "noinline", "fresh ", "note ", "assert", "invariant ", "invariant[", "guarded_by ", "owns ", "immutable", "decreases ", "ghost ", "lastcall ", "allocbound "}
+	heads := []string{"func ", "type ", "spec ", "dead ", "forbid_call", "forbid_tags", "forbid_method", "axiom ", "lemma ", "global ", "props ", "arith ", "requires", "ensures", "trusted_ensures", "assigns", "writes", "loop ", "pure", "trusted", "trustframe", "noglobals", "validator", "errors_propagated", "constructor", "unbounded_alloc", "noinline", "fresh ", "note ", "assert", "invariant ", "invariant[", "guarded_by ", "owns ", "immutable", "decreases ", "ghost ", "lastcall ", "allocbound "}
 	for i, raw := range strings.Split(string(data), "\n") {
 		s := strings.TrimSpace(raw)
 		if !strings.HasPrefix(s, "//@") {
@@ -613,6 +620,27 @@ func (cs *Contracts) ParseContractFile(path string, pkgName string, isSpec bool)
 				sf.Body = e
 			}
 			cs.Specs[sf.Name] = sf
+		case strings.HasPrefix(s, "forbid_call"):
+			// forbid_call[Cxx] <callee id>: <reason>
+			rest := strings.TrimSpace(s[len("forbid_call"):])
+			var props []string
+			if strings.HasPrefix(rest, "[") {
+				i := strings.Index(rest, "]")
+				for _, p := range strings.Split(rest[1:i], ",") {
+					props = append(props, strings.TrimSpace(p))
+				}
+				rest = strings.TrimSpace(rest[i+1:])
+			}
+			reason := ""
+			if i := strings.Index(rest, ":"); i >= 0 {
+				reason, rest = strings.TrimSpace(rest[i+1:]), strings.TrimSpace(rest[:i])
+			}
+			if rest == "" || strings.ContainsAny(rest, " \t") {
+				cs.Errors = append(cs.Errors, src+": bad forbid_call clause")
+				continue
+			}
+			cs.ForbidCalls = append(cs.ForbidCalls, &ForbidCall{Callee: rest, Reason: reason, Src: src, Props: props})
+			curF, curT = nil, nil
 		case strings.HasPrefix(s, "forbid_method"), strings.HasPrefix(s, "forbid_tags"):
 			// forbid_method[Cxx] <Type> <Method>: <reason>
 			// forbid_tags[Cxx] <Type>: <reason>   (no field but the last of the struct type carries a struct tag: its wire form is
